@@ -138,6 +138,12 @@ Cfg(i, q) ==
    fluxes |-> viaf \/ d[8] % 3 # 0,
    via |-> IF viaf THEN "function" ELSE "class"]
 CfgSeq(i) == [q \in 1..NCfg |-> Cfg(i, q)]
+\* the design run also visits these on every instance (so that no clause depends on the draws)
+PinnedCfgs == {
+  [method |-> "optgp", n |-> 11, thin |-> 1, seed |-> 7, nproj |-> 0, P |-> 3, fluxes |-> TRUE, via |-> "class"],
+  [method |-> "optgp", n |-> 4, thin |-> 3, seed |-> 9, nproj |-> 1, P |-> 2, fluxes |-> FALSE, via |-> "class"],
+  [method |-> "achr", n |-> 5, thin |-> 2, seed |-> 3, nproj |-> 5, P |-> 1, fluxes |-> FALSE, via |-> "class"],
+  [method |-> "achr", n |-> 3, thin |-> 1, seed |-> 5, nproj |-> 0, P |-> 1, fluxes |-> TRUE, via |-> "function"]}
 
 \* ------------------------------------------------------------- the abstract sampler
 Lat == lat
@@ -178,7 +184,7 @@ Init ==
   /\ x = Inst(j)
   /\ lat = SxLattice(x)
   /\ AllFinite(x.M) /\ BoundsOrdered(x.M) /\ lat # {}          \* SxInScope
-  /\ IF Mode = "design" THEN \E q \in 1..NCfg : cfg = Cfg(j, q) ELSE cfg = Cfg(j, 1)
+  /\ IF Mode = "design" THEN cfg \in {Cfg(j, q) : q \in 1..NCfg} \cup PinnedCfgs ELSE cfg = Cfg(j, 1)
   /\ phase = IF Mode = "design" THEN "new" ELSE "emit"
   /\ rowsA = <<>> /\ rowsB = <<>> /\ codes = <<>> /\ pcodes = <<>>
   /\ modelPost = ModelDigest(X)
